@@ -80,7 +80,8 @@ def spec_text(spec):
             out.append("@" + r["ann"])
         out.append("%s: %s;" % (r["name"], " | ".join(
             " ".join(item_text(i) for i in a) if a else "EMPTY" for a in r["alts"])))
-    out.append("terminals")
+    if spec["terms"]:
+        out.append("terminals")
     for t in spec["terms"]:
         if t.get("ann"):
             out.append("@" + t["ann"])
@@ -136,6 +137,7 @@ CURATED = [
     ("optional_explicit", mk_spec("S: O b; @optional O: a | EMPTY")),
     ("kw_to_builtin", mk_spec("@collect S: x=S a | a")),
     ("raise_order", mk_spec("S: A B; A: a; B: b", {"A": U(3), "B": U(7), "S": U(0)})),
+    ("raise_kinds", mk_spec("S: A B; A: a; B: b", {"A": U(3), "B": B("obj"), "S": U(0)})),
     ("raise_left", mk_spec("S: A B; A: a; B: b", {"A": U(3), "S": U(0)})),
     ("term_actions", mk_spec("S: a b+ d?", {"a": U(0), "b": B("pass_none"), "d": U(2)},
                              {"a": None, "b": None})),
@@ -198,6 +200,8 @@ def random_spec(rng):
         if not gramgen.productive_reachable(plain):
             continue
         used = set(i["sym"] for r in rules for a in r["alts"] for i in a)
+        if not (used & set("abd")):
+            continue
         used |= set(i["sep"] for r in rules for a in r["alts"] for i in a if i["sep"])
         tspecs = []
         actions = {}
@@ -412,7 +416,7 @@ def opt(x):
 def _run_route(fn):
     from lib import impl
     try:
-        with impl.time_limit(10):
+        with impl.time_limit(3):
             return ("ok", fn())
     except (TypeError, ValueError, IndexError) as e:
         return ("exc", type(e).__name__)
@@ -435,7 +439,7 @@ def _worker(job):
     for route in range(3):
         env = Env(spec)
         try:
-            with impl.time_limit(20):
+            with impl.time_limit(10):
                 g = Grammar.from_string(gtext)
         except BaseException as e:  # noqa
             out["gerr"] = impl.exc_kind(e)
@@ -472,7 +476,9 @@ def _worker(job):
             out["resolve_unmodelled"] = unmod[0]
             out["resolve"] = res_cases
         try:
-            with impl.time_limit(20), impl.quiet():
+            if route > 0 and parsers[0][2] == "Timeout":
+                raise impl.Timeout()
+            with impl.time_limit(5), impl.quiet():
                 if route == 0:
                     p = Parser(g, actions=acts)
                 elif route == 1:
@@ -721,6 +727,10 @@ class _Obj:
         self._pg_children_names = list(attrs.keys())
 
 
+class X0(_Obj):
+    pass
+
+
 class _Sym:
     pass
 
@@ -744,7 +754,7 @@ def _val_to_py(v):
     if t == "b":
         return bool(v[1])
     if t == "o":
-        o = _Obj(**{NAMES[n - 1]: _val_to_py(x) for n, x in v[2]})
+        o = X0(**{NAMES[n - 1]: _val_to_py(x) for n, x in v[2]})
         o._pg_start_position, o._pg_end_position = v[3], v[4]
         o._cls_id = v[1]
         return o
@@ -759,7 +769,7 @@ def _builtin_worker(cases):
         ctx = _Ctx()
         ctx.production = _Prod()
         ctx.production.symbol = _Sym()
-        ctx.production.symbol.cls = type("X0", (_Obj,), {}) if has_cls else None
+        ctx.production.symbol.cls = X0 if has_cls else None
         ctx.start_position, ctx.end_position = s, e
         if code == 10:
             def f(_, nodes):  # the closure of grammar.py:992-995, re-stated (cannot be reached by name)
@@ -811,7 +821,7 @@ def gen_jobs(ctx):
         for s in gramgen.all_strings(alpha, 2 if quick else 3):
             inputs.add(s)
         jobs.append((name, spec, sorted(inputs)))
-    nrand = 260 if quick else 3500
+    nrand = 320 if quick else 5000
     for i in range(nrand):
         spec = random_spec(rng)
         if spec is None:
@@ -838,6 +848,8 @@ def is_exc(r):
 
 
 def run(ctx):
+    import time
+    t0 = time.time()
     jobs = gen_jobs(ctx)
     with mp.Pool(common.NPROC) as pool:
         results = pool.map(_worker, jobs, chunksize=2)
@@ -876,6 +888,8 @@ def run(ctx):
                 mcases.append((93, d))
                 meta.append(("assign", r, pid, None))
         lay = [r["layout_table"]] if r.get("has_layout") else []
+        if lay:
+            st["layout_grammars"] += 1
         pconf = [r["grammar"], r["table"], r["terms"], r["stop"], 1, 1, wsl, lay]
         for w, res in r["results"].items():
             pin = [[ord(ch) for ch in w], r["rx"][w]]
@@ -889,14 +903,19 @@ def run(ctx):
         mcases.append((95, [code, [val_to_sx(x) for x in nodes],
                             [] if kw is None else [[[n, val_to_sx(x)] for n, x in kw]], has_cls, s, e]))
         meta.append(("builtin", None, i, None))
+    import time
+    t1 = time.time()
     outs = common.model_run(mcases)
-    nx, xok, xlog = common.coq_crosscheck("C09", mcases, outs, ctx.rng, sample=40 if ctx.quick() else 150)
+    t2 = time.time()
+    nx, xok, xlog = common.coq_crosscheck("C09", mcases, outs, ctx.rng, sample=24 if ctx.quick() else 150)
     if not xok:
         ctx.violation("extraction cross-check failed: OCaml driver and vm_compute disagree",
                       {"log": xlog}, no_input=True)
+    t3 = time.time()
+    ctx.notes.append("timing: impl %.1fs, model %.1fs (%d cases), vm_compute cross-check %.1fs"
+                     % (t1 - t0, t2 - t1, len(mcases), t3 - t2))
     distinct = set()
     samples = []
-    seen_construct = set()
     resolve_pred = {}
     for (kind, r, w, _), o in zip(meta, outs):
         if kind == "builtin":
@@ -987,7 +1006,9 @@ def run(ctx):
         c = r["construct"]
         st["construct"][repr(c)] = st["construct"].get(repr(c), 0) + 1
         rep = {"grammar": r["gtext"], "actions": r["spec"]["actions"]}
-        if len(set(c)) != 1:
+        if "Timeout" in c:
+            st["construct_timeouts"] = st.get("construct_timeouts", 0) + 1
+        elif c[0] != c[1] or (c[2] != c[0] and (c[0] in ("ok", "ParserInitError") or c[2] != "ok")):
             ctx.violation("the three parsers are not constructed alike: %r" % (c,), rep, key="construct")
         m_err = any(o == [2] for _, o in pred)
         unmod = r.get("resolve_unmodelled") or any(a is None for _, a in r.get("resolved", []))
@@ -1034,6 +1055,47 @@ def run(ctx):
 
 
 KF_NONE = "KF-C09-collect-drops-none"
+KF_SPAN = "KF-C09-glr-empty-span"
+
+
+def _lay(w, a, b):
+    return a == b or (a < b and w[a:b].strip(WS) == "")
+
+
+def spans_differ_by_layout(lr, glr, w):
+    """same productions and leaves; nonterminal spans may start/end later in the GLR tree, by layout only"""
+    if lr[0] != glr[0] or lr[1] != glr[1]:
+        return False
+    if lr[0] == 0:
+        return lr == glr
+    if not (_lay(w, lr[2], glr[2]) and _lay(w, lr[3], glr[3])):
+        return False
+    if len(lr[4]) != len(glr[4]):
+        return False
+    return all(spans_differ_by_layout(a, b, w) for a, b in zip(lr[4], glr[4]))
+
+
+def has_empty_node(t):
+    if t[0] == 0:
+        return False
+    return not t[4] or any(has_empty_node(c) for c in t[4])
+
+
+def value_eq_mod_layout(a, b, w):
+    if a[0] != b[0]:
+        return False
+    t = a[0]
+    if t == "l":
+        return len(a[1]) == len(b[1]) and all(value_eq_mod_layout(x, y, w) for x, y in zip(a[1], b[1]))
+    if t == "o":
+        return (a[1] == b[1] and _lay(w, a[3], b[3]) and _lay(w, a[4], b[4]) and len(a[2]) == len(b[2])
+                and all(x[0] == y[0] and value_eq_mod_layout(x[1], y[1], w) for x, y in zip(a[2], b[2])))
+    if t == "u":
+        return (a[1] == b[1] and a[2] == b[2] and _lay(w, a[3], b[3]) and _lay(w, a[4], b[4])
+                and len(a[5]) == len(b[5]) and len(a[6]) == len(b[6])
+                and all(value_eq_mod_layout(x, y, w) for x, y in zip(a[5], b[5]))
+                and all(x[0] == y[0] and value_eq_mod_layout(x[1], y[1], w) for x, y in zip(a[6], b[6])))
+    return a == b
 
 
 def check_property(ctx, st, r, w, res, rep):
@@ -1064,10 +1126,22 @@ def check_property(ctx, st, r, w, res, rep):
             ctx.violation("LR accepts, GLR fails with %r" % (res["glr_err"],), rep, no_input=True, key="glr-fails")
     elif n == 1 and "glr" in res:
         st["glr_single"] += 1
+        gl = res["glr"]
         if res["glr_tree"] != res["tree"]:
-            st["glr_tree_differs"] += 1
+            # the only tolerated difference is the listed finding: spans that differ by layout only
+            # in a tree that contains an empty reduction, results equal up to exactly those spans
+            if spans_differ_by_layout(res["tree"], res["glr_tree"], w) and has_empty_node(res["tree"]) \
+                    and ((is_exc(gl) and is_exc(dfr)) or
+                         (not is_exc(gl) and not is_exc(dfr) and value_eq_mod_layout(dfr[1], gl[1], w))):
+                st["glr_tree_differs"] += 1
+                ctx.known_finding(KF_SPAN, "GLR places an empty reduction (and the end of enclosing nodes) after "
+                                  "the following layout, LR before it, so positions seen by actions differ between "
+                                  "the routes; first seen: grammar %r input %r" % (r["gtext"], w))
+            else:
+                ctx.violation("single GLR tree differs from the LR tree (beyond layout-only span differences)",
+                              dict(rep, lr_tree=res["tree"], glr_tree=res["glr_tree"], glr=gl, lr=dfr),
+                              key="glr-tree")
         else:
-            gl = res["glr"]
             if is_exc(gl) or is_exc(dfr):
                 if not (is_exc(gl) and is_exc(dfr)):
                     ctx.violation("GLR call_actions %r vs LR call_actions %r" % (gl, dfr), rep, key="glr-exc")
